@@ -41,8 +41,12 @@ class Sys:
         M.now = lambda: "2024-01-01T00:00:00"
         self.router = Router()
         self.devs = []
+        classes, alldefs = [], []
         for s in self.specs:
-            cls, defs = D.build_class(s)
+            bi = s.get("derive_from")
+            cls, defs = D.build_class(s, base_cls=classes[bi] if bi is not None else None, base_defs=alldefs[bi] if bi is not None else None)
+            classes.append(cls)
+            alldefs.append(defs)
             self.devs.append(cls(router=self.router))
         self.log = []
         outer = self
